@@ -361,12 +361,16 @@ pub struct FetchCase {
     pub more: Vec<Vec<bool>>,
     /// which in-flight fetch completes next
     pub completes: Vec<u16>,
+    /// Some(r): after the first advertisement the node reports itself full with the record of
+    /// closeness rank r as its farthest held one; later advertisements are filtered by that bound
+    #[serde(default)]
+    pub full_at_rank: Option<u8>,
 }
 
 fn fetch_strategy() -> BoxedStrategy<FetchCase> {
     let mask = |p_true: u32| proptest::collection::vec(proptest::bool::weighted(p_true as f64 / 100.0), 40);
-    (0u8..8, mask(90), proptest::collection::vec(mask(50), 1..3), proptest::collection::vec(any::<u16>(), 1..vh_core::depth(40, 80)))
-        .prop_map(|(node, first, more, completes)| FetchCase { node, first, more, completes })
+    (0u8..8, mask(90), proptest::collection::vec(mask(50), 1..3), proptest::collection::vec(any::<u16>(), 1..vh_core::depth(40, 80)), proptest::option::weighted(0.4, 0u8..40))
+        .prop_map(|(node, first, more, completes, full_at_rank)| FetchCase { node, first, more, completes, full_at_rank })
         .boxed()
 }
 
@@ -379,6 +383,7 @@ fn check_fetch_order(case: &FetchCase, ctx: &mut Ctx) {
         mask.iter().enumerate().filter(|(_, b)| **b).filter_map(|(i, _)| w.keys.get(i).map(|k| (k.1.clone(), RecordType::Chunk))).collect()
     };
     let mut dup_in_flight_when_freed = false;
+    let mut boundary_advertised = false;
     // judge one scheduling step: `new` = (key rank) just scheduled
     let mut judge = |w: &crate::c08::World, new: &[usize], at: &str, ctx: &mut Ctx| {
         let ongoing: HashSet<usize> = w.ongoing().into_iter().map(|(i, _, _)| i).collect();
@@ -398,15 +403,47 @@ fn check_fetch_order(case: &FetchCase, ctx: &mut Ctx) {
     let r = w.rt.block_on(async { w.f.add_keys(h0, a0, &none_local) });
     let new: Vec<usize> = r.iter().map(|(_, k)| w.idx(k)).collect();
     judge(&w, &new, "first advertisement", ctx);
+    if let Some(r) = case.full_at_rank {
+        let r = r as usize % w.keys.len();
+        let k = w.keys[r].0.clone();
+        w.rt.block_on(async { w.f.set_farthest_on_full(Some(k)) });
+        // nothing farther than rank r stays queued or in flight; everything up to r (inclusive) stays
+        let beyond: Vec<usize> = w.pending().into_iter().chain(w.ongoing()).map(|(i, _, _)| i).filter(|i| *i > r).collect();
+        if !beyond.is_empty() {
+            ctx.fail("record_farther_than_the_farthest_held_kept_after_full", format!("full at rank {r}: ranks {beyond:?} still queued / in flight"));
+        }
+    }
     for (hi, m) in case.more.iter().enumerate() {
         let h = w.holders[(hi + 1) % w.holders.len()];
         let a = advert(&w, m);
         if a.len() < 2 {
             continue;
         }
+        let advertised: Vec<usize> = m.iter().enumerate().filter(|(_, b)| **b).map(|(i, _)| i).filter(|i| *i < w.keys.len()).collect();
         let r = w.rt.block_on(async { w.f.add_keys(h, a, &none_local) });
         let new: Vec<usize> = r.iter().map(|(_, k)| w.idx(k)).collect();
         judge(&w, &new, &format!("advertisement of holder {}", hi + 1), ctx);
+        if let Some(limit) = case.full_at_rank {
+            let limit = limit as usize % w.keys.len();
+            // the bound is "not farther than the farthest held record": rank <= limit is taken (queued
+            // for this holder or in flight from anyone), rank > limit is not
+            let hidx = (hi + 1) % w.holders.len();
+            let ongoing: HashSet<usize> = w.ongoing().into_iter().map(|(i, _, _)| i).collect();
+            let queued_here: HashSet<usize> = w.pending().into_iter().filter(|(_, _, h)| *h == hidx).map(|(i, _, _)| i).collect();
+            for i in advertised {
+                let taken = ongoing.contains(&i) || queued_here.contains(&i);
+                if i <= limit && !taken {
+                    ctx.fail(
+                        if i == limit { "record_at_the_farthest_acceptable_distance_dropped" } else { "record_within_the_farthest_acceptable_distance_dropped" },
+                        format!("full at rank {limit}: advertised rank {i} from holder {hidx} is neither queued for it nor in flight"),
+                    );
+                }
+                if i > limit && queued_here.contains(&i) {
+                    ctx.fail("record_farther_than_the_farthest_held_accepted", format!("full at rank {limit}: advertised rank {i} was queued"));
+                }
+            }
+            boundary_advertised |= m.get(limit).copied().unwrap_or(false);
+        }
     }
     let mut done = 0;
     for (step, c) in case.completes.iter().enumerate() {
@@ -428,6 +465,8 @@ fn check_fetch_order(case: &FetchCase, ctx: &mut Ctx) {
     }
     ctx.label_if(dup_in_flight_when_freed, "queued_duplicate_of_in_flight_key_when_a_slot_freed");
     ctx.label_if(done >= 20, "whole_first_batch_completed");
+    ctx.label_if(case.full_at_rank.is_some(), "node_reported_full");
+    ctx.label_if(boundary_advertised, "record_at_exactly_the_farthest_held_distance_advertised");
     ctx.nontrivial_if(dup_in_flight_when_freed && done > 0);
 }
 
